@@ -715,6 +715,12 @@ fn erase_str(k: &str) -> String {
     if k.starts_with("FixedArray") {
         return format!("FixedArray{}", &k[k.find('[').unwrap_or(k.len())..]);
     }
+    if k.starts_with("Packed[") || k.starts_with("Struct[") {
+        // "Packed[v3@0+160,v4@160+8]" -> "Packed[0+160,160+8]"
+        let head = &k[..7];
+        let body: Vec<String> = k[7..k.len() - 1].split(',').map(|s| s.split('@').nth(1).unwrap_or(s).to_string()).collect();
+        return format!("{head}{}]", body.join(","));
+    }
     k.to_string()
 }
 
